@@ -40,6 +40,8 @@ type ExecCtx struct {
 	pendingLabel string
 	curPos   token.Pos
 	loopBinds []map[string]Val
+	callArgs []Val
+	callRecv *Val
 	inlinedFunc bool // body of a named function inlined at a call site
 	factDepth int
 }
